@@ -75,6 +75,8 @@ pub struct Sig {
     pub explicit_outlives: bool,
     /// a (trivially true) where predicate that mentions lifetime 'a only inside a delimited group: `(&'a u8, u8): Clone`, ..
     pub grouped_lt_pred: Option<usize>,
+    /// a (trivially true) where predicate over a bounded type that is not a plain parameter name
+    pub extra_where: Option<usize>,
     pub has_const: bool,
     pub params: Vec<PTy>,
     pub ret: RTy,
@@ -88,6 +90,8 @@ pub struct Sig {
 }
 
 const LT: [&str; 3] = ["'a", "'b", "'c"];
+/// where predicates whose bounded type is a qualified / absolute / multi-segment path or not a path at all
+const EXTRA_PREDS: [&str; 5] = ["::core::primitive::u8: Copy", "core::primitive::u16: Copy", "<u8 as ::core::ops::Add>::Output: Copy", "[u8; 3]: Copy", "(u8, i8): Copy"];
 /// where predicates over fn lifetime 'a whose lifetime sits inside `(..)` / `[..]` only (they must stay on the method)
 const GROUPED_PREDS: [&str; 4] = ["(&'a u8, u8): Clone", "[&'a u8; 1]: Clone", "fn(&'a u8) -> u8: Copy", "Box<dyn Fn(&'a u8) -> u8>: Sized"];
 
@@ -146,6 +150,9 @@ impl Sig {
         }
         if self.lt_pred && self.n_lifetimes >= 2 {
             w.push("'b: 'a".into());
+        }
+        if let Some(k) = self.extra_where {
+            w.push(EXTRA_PREDS[k % EXTRA_PREDS.len()].to_string());
         }
         if let Some(k) = self.grouped_lt_pred {
             w.push(GROUPED_PREDS[k % GROUPED_PREDS.len()].to_string());
@@ -523,6 +530,7 @@ pub fn gen_sig(t: &mut Tape, excl: &Excl) -> Sig {
         has_gen,
         gen_bound_where: t.flip(),
         explicit_outlives: !excl.lifetime_predicates && t.flip(),
+        extra_where: if t.chance(1, 6) { Some(t.choose(5)) } else { None },
         grouped_lt_pred: if n_lifetimes >= 1 && !excl.lifetime_predicates && t.chance(1, 5) { Some(t.choose(4)) } else { None },
         has_const,
         params,
@@ -634,6 +642,9 @@ pub fn gen_case(t: &mut Tape, excl: &Excl) -> Case {
     }
     if sig.lt_pred {
         classes.push("lifetime_predicate");
+    }
+    if sig.extra_where.is_some() {
+        classes.push("where_predicate_on_non_parameter_type");
     }
     if sig.grouped_lt_pred.is_some() {
         classes.push("lifetime_inside_group_in_where_predicate");
